@@ -114,3 +114,45 @@ theorem alGet_foldl_insert {κ β γ : Type} [DecidableEq κ] (f : γ → κ × 
     · simp [List.find?_cons, hx, alGet_alInsert]
 
 end Wac.HashSites
+
+namespace Wac.HashSites
+
+theorem foldl_min_le (xs : List Nat) (x : Nat) : xs.foldl min x ≤ x := by
+  induction xs generalizing x with
+  | nil => simp
+  | cons y ys ih => simp only [List.foldl_cons]; exact Nat.le_trans (ih _) (Nat.min_le_left _ _)
+
+theorem foldl_min_le_mem (xs : List Nat) (x y : Nat) (h : y ∈ xs) : xs.foldl min x ≤ y := by
+  induction xs generalizing x with
+  | nil => simp at h
+  | cons z zs ih =>
+    simp only [List.foldl_cons]
+    rcases List.mem_cons.mp h with rfl | h
+    · exact Nat.le_trans (foldl_min_le _ _) (Nat.min_le_right _ _)
+    · exact ih _ h
+
+theorem foldl_min_mem (xs : List Nat) (x : Nat) : xs.foldl min x = x ∨ xs.foldl min x ∈ xs := by
+  induction xs generalizing x with
+  | nil => simp
+  | cons z zs ih =>
+    simp only [List.foldl_cons]
+    rcases ih (min x z) with h | h
+    · rw [h]; rcases Nat.le_total x z with hle | hle
+      · left; exact Nat.min_eq_left hle
+      · right; rw [Nat.min_eq_right hle]; simp
+    · right; exact List.mem_cons_of_mem _ h
+
+/-- the minimum of a non-empty list, as computed by the fold, is the least element -/
+theorem minOf_spec (x : Nat) (xs : List Nat) :
+    (xs.foldl min x) ∈ x :: xs ∧ ∀ y ∈ x :: xs, xs.foldl min x ≤ y := by
+  refine ⟨?_, ?_⟩
+  · rcases foldl_min_mem xs x with h | h
+    · rw [h]; simp
+    · exact List.mem_cons_of_mem _ h
+  · intro y hy
+    rcases List.mem_cons.mp hy with rfl | hy
+    · exact foldl_min_le _ _
+    · exact foldl_min_le_mem _ _ _ hy
+
+
+end Wac.HashSites
